@@ -6,15 +6,26 @@ C14 (C): model of common-subexpression elimination
 single-result operations.
 
 An instruction `dst = key(args)` stands for an operation whose `OperationInfo` (name, attributes,
-properties, result types) is abstracted to the string `key`; two operations are CSE candidates iff
-their keys and operand lists are equal.  The pass walks the block once, keeps the table of known
-operations, replaces the uses of a repeated operation by the earlier result and erases it.
+properties, result types) is the key `key : K`; two operations are CSE candidates iff their keys and
+operand lists are equal.  The pass walks the block once, keeps the table of known operations,
+replaces the uses of a repeated operation by the earlier result and erases it.
+
+`K` is a parameter: the line protocol uses `K = String` (the harness renders name, every
+attribute/property item, and the result types injectively into one token); `OpKey` below is the
+structured form with the component-wise `OperationInfo.__eq__` / `__hash__`.
+
+The table of known operations is a Python `dict` keyed by `OperationInfo`: `cseGoH`/`Known.findH`
+model the lookup as Python performs it (an entry is a hit when the hashes are equal and `__eq__`
+holds, and `__eq__` itself starts with the comparison of the hashes) for an ARBITRARY hash function,
+so that colliding hashes are part of the model; `cseGo`/`Known.find` are the collision-free
+specification.  (`XdslProofs/C14CSE.lean` proves that both coincide as long as `__eq__` compares
+every component, and that they do not when it compares the attribute names only.)
 -/
 namespace Xdsl.CSE
 
-structure Instr where
+structure Instr (K : Type) where
   dst : Nat
-  key : String
+  key : K
   args : List Nat
 deriving Repr, DecidableEq, Inhabited
 
@@ -24,15 +35,15 @@ abbrev Repl := AL Nat Nat
 def Repl.app (r : Repl) (v : Nat) : Nat := (AL.get r v).getD v
 
 /-- table of known operations: (key, operands) ↦ result -/
-abbrev Known := List ((String × List Nat) × Nat)
+abbrev Known (K : Type) := List ((K × List Nat) × Nat)
 
-def Known.find (k : Known) (key : String) (args : List Nat) : Option Nat :=
+def Known.find {K : Type} [DecidableEq K] (k : Known K) (key : K) (args : List Nat) : Option Nat :=
   match k with
   | [] => none
   | ((key', args'), d) :: rest => if key' = key ∧ args' = args then some d else Known.find rest key args
 
 /-- one walk over the block: returns the remaining instructions (in order) and the replacement -/
-def cseGo (known : Known) (repl : Repl) : List Instr → List Instr × Repl
+def cseGo {K : Type} [DecidableEq K] (known : Known K) (repl : Repl) : List (Instr K) → List (Instr K) × Repl
   | [] => ([], repl)
   | i :: rest =>
     let args' := i.args.map repl.app
@@ -44,7 +55,73 @@ def cseGo (known : Known) (repl : Repl) : List Instr → List Instr × Repl
       let (out, r) := cseGo (((i.key, args'), i.dst) :: known) repl rest
       ({ i with args := args' } :: out, r)
 
-def cse (prog : List Instr) : List Instr × Repl := cseGo [] [] prog
+def cse {K : Type} [DecidableEq K] (prog : List (Instr K)) : List (Instr K) × Repl := cseGo [] [] prog
+
+/-! ### the table as the Python `dict[OperationInfo, Operation]` it is: hashes and `__eq__`
+
+`h key args` is `hash(OperationInfo(op))` (any function of the operation's identity: the real one
+mixes the name, the SUM of the item hashes of the attribute and property dictionaries, the result
+types and the operands); `eqv` is the comparison `__eq__` makes of name, attributes, properties and
+result types. -/
+
+/-- `OperationInfo.__eq__`: `hash(self) == hash(other) and <components equal> and operands equal` -/
+def infoEq {K : Type} (h : K → List Nat → Int) (eqv : K → K → Bool)
+    (k1 : K) (a1 : List Nat) (k2 : K) (a2 : List Nat) : Bool :=
+  h k1 a1 == h k2 a2 && eqv k1 k2 && a1 == a2
+
+/-- `dict.get(OperationInfo(op))`: an entry is returned when its hash equals the hash of the probe
+and `__eq__` holds.  (If `__eq__` were not an equivalence several entries could qualify and CPython
+would take the first in probe order; the model takes the most recent one.) -/
+def Known.findH {K : Type} (h : K → List Nat → Int) (eqv : K → K → Bool) :
+    Known K → K → List Nat → Option Nat
+  | [], _, _ => none
+  | ((key', args'), d) :: rest, key, args =>
+    if h key' args' == h key args && infoEq h eqv key' args' key args then some d
+    else Known.findH h eqv rest key args
+
+/-- `cseGo` with the hashed lookup -/
+def cseGoH {K : Type} (h : K → List Nat → Int) (eqv : K → K → Bool) (known : Known K) (repl : Repl) :
+    List (Instr K) → List (Instr K) × Repl
+  | [] => ([], repl)
+  | i :: rest =>
+    let args' := i.args.map repl.app
+    match known.findH h eqv i.key args' with
+    | some d => cseGoH h eqv known ((i.dst, d) :: repl) rest
+    | none =>
+      let (out, r) := cseGoH h eqv (((i.key, args'), i.dst) :: known) repl rest
+      ({ i with args := args' } :: out, r)
+
+def cseH {K : Type} (h : K → List Nat → Int) (eqv : K → K → Bool) (prog : List (Instr K)) :
+    List (Instr K) × Repl := cseGoH h eqv [] [] prog
+
+/-- structured `OperationInfo` without the operands: operation name, attribute and property
+dictionaries as lists of (name, printed value) sorted by name, printed result types -/
+structure OpKey where
+  name : String
+  attrs : List (String × String)
+  props : List (String × String)
+  resTys : List String
+deriving Repr, DecidableEq, Inhabited
+
+/-- the component comparisons of `OperationInfo.__eq__` (`self.name == other.name and
+self.op.attributes == other.op.attributes and self.op.properties == other.op.properties and
+self.op.result_types == other.op.result_types`) -/
+def OpKey.eqv (a b : OpKey) : Bool :=
+  a.name == b.name && a.attrs == b.attrs && a.props == b.props && a.resTys == b.resTys
+
+/-- a coarser comparison: the NAMES of the attributes/properties only, the values being left to the
+hash (what `.keys() == .keys()` does) -/
+def OpKey.eqvKeysOnly (a b : OpKey) : Bool :=
+  a.name == b.name && a.attrs.map (·.1) == b.attrs.map (·.1) && a.props.map (·.1) == b.props.map (·.1)
+    && a.resTys == b.resTys
+
+/-- `OperationInfo.__hash__`: `hash((name, sum(hash(i) for i in attributes.items()),
+sum(hash(i) for i in properties.items()), hash(result_types), hash(operands)))` with the string hash
+`hs`, the item hash `ha` and the tuple hash `mix` as parameters -/
+def OpKey.hash (hs : String → Int) (ha : String × String → Int) (mix : List Int → Int)
+    (k : OpKey) (args : List Nat) : Int :=
+  mix [hs k.name, (k.attrs.map ha).sum, (k.props.map ha).sum, mix (k.resTys.map hs),
+       mix (args.map Int.ofNat)]
 
 /-! ### semantics: environments are partial maps; an operation may be undefined (`none`) -/
 
@@ -59,7 +136,7 @@ def getArgs {V : Type} (e : Env V) : List Nat → Option (List V)
     | _, _ => none
 
 /-- run a block; `none` = some operation is undefined (UB / unbound operand) -/
-def run {V : Type} (sem : String → List V → Option V) (e : Env V) : List Instr → Option (Env V)
+def run {K V : Type} (sem : K → List V → Option V) (e : Env V) : List (Instr K) → Option (Env V)
   | [] => some e
   | i :: rest =>
     match getArgs e i.args with
@@ -68,9 +145,13 @@ def run {V : Type} (sem : String → List V → Option V) (e : Env V) : List Ins
       | none => none
     | none => none
 
-/-! ### line protocol: `cse <n> (<dst> <key> <k> <arg>*)*` → remaining instructions and replacement -/
+/-! ### line protocol
+`cse <n> (<dst> <key> <k> <arg>*)*` → remaining instructions (collision-free table);
+`cseh <n> (<dst> <key> <hash> <k> <arg>*)*` → the same through the hashed table, where `<hash>` is
+the hash the implementation was observed to give the attribute/property part of the operation
+(equal keys carry equal hashes; different keys may). -/
 
-def parseInstrs : Nat → List String → Option (List Instr)
+def parseInstrs : Nat → List String → Option (List (Instr String))
   | 0, [] => some []
   | 0, _ => none
   | n + 1, d :: key :: k :: rest =>
@@ -82,7 +163,25 @@ def parseInstrs : Nat → List String → Option (List Instr)
     | _, _ => none
   | _ + 1, _ => none
 
-def showInstr (i : Instr) : String :=
+/-- instructions with an observed hash per instruction -/
+def parseInstrsH : Nat → List String → Option (List (Instr String × Int))
+  | 0, [] => some []
+  | 0, _ => none
+  | n + 1, d :: key :: hv :: k :: rest =>
+    match d.toNat?, hv.toInt?, k.toNat? with
+    | some d, some hv, some k =>
+      match (rest.take k).mapM String.toNat?, parseInstrsH n (rest.drop k) with
+      | some args, some more =>
+        if args.length = k then some (({ dst := d, key := key, args := args }, hv) :: more) else none
+      | _, _ => none
+    | _, _, _ => none
+  | _ + 1, _ => none
+
+/-- hash of an operation in the `cseh` protocol: the observed hash of its key mixed with the operands -/
+def obsHash (tbl : List (String × Int)) (key : String) (args : List Nat) : Int :=
+  args.foldl (fun acc a => acc * 1000003 + Int.ofNat a) ((AL.get tbl key).getD 0)
+
+def showInstr (i : Instr String) : String :=
   s!"{i.dst}={i.key}(" ++ ",".intercalate (i.args.map toString) ++ ")"
 
 def lineStep (s : Unit) (line : String) : Unit × String :=
@@ -93,6 +192,16 @@ def lineStep (s : Unit) (line : String) : Unit × String :=
       match parseInstrs n rest with
       | some prog =>
         let (out, _) := cse prog
+        (s, "ok " ++ " ".intercalate (out.map showInstr))
+      | none => (s, "bad-op")
+    | none => (s, "bad-op")
+  | "cseh" :: n :: rest =>
+    match n.toNat? with
+    | some n =>
+      match parseInstrsH n rest with
+      | some progH =>
+        let tbl := progH.map fun (i, hv) => (i.key, hv)
+        let (out, _) := cseH (obsHash tbl) (fun a b => a == b) (progH.map (·.1))
         (s, "ok " ++ " ".intercalate (out.map showInstr))
       | none => (s, "bad-op")
     | none => (s, "bad-op")
